@@ -148,7 +148,8 @@ class ModuleInfo:
                 mod = st.module or ""
                 if st.level:
                     base = self.name.split(".")
-                    base = base[: len(base) - st.level]
+                    strip = st.level - (1 if self.path.endswith("__init__.py") else 0)
+                    base = base[: len(base) - strip]
                     mod = ".".join(base + ([mod] if mod else []))
                 for a in st.names:
                     self.imports[a.asname or a.name] = (mod, a.name)
@@ -167,6 +168,17 @@ class ModuleInfo:
 
     def resolve_name(self, name):
         """Resolve a (possibly dotted) global name to ClassInfo / FunctionInfo / ('module', name) / ('assign', ModuleInfo, expr) / None."""
+        head, _, rest = name.partition(".")
+        key = (self.name, head)
+        if key in self.index._resolving:
+            return None          # import cycle
+        self.index._resolving.add(key)
+        try:
+            return self._resolve_name(name)
+        finally:
+            self.index._resolving.discard(key)
+
+    def _resolve_name(self, name):
         head, _, rest = name.partition(".")
         if head in self.classes:
             r = self.classes[head]
@@ -207,6 +219,7 @@ class SourceIndex:
     def __init__(self, repo=None):
         self.repo = repo or REPO
         self._mods = {}
+        self._resolving = set()
 
     def module(self, name):
         if name in self._mods:
